@@ -1146,4 +1146,20 @@ example : ∃ d pkg flags, G3.Ex.xseq.outputForSEQXFileWithFlags = .ok d ∧ d.p
   cases htok
   exact ⟨d, pkg, flags, h, hp, hf, hcell⟩
 
+/-! ### model note: order of the amplitude type check and the length check -/
+
+/-- one position, one channel with a 1-point waveform and a non-numeric amplitude (`None`) -/
+def shortNoneSeq : Sequence :=
+  { data := [(1, .el { chans := [(.int 1, { data := .arr [("m1", [0]), ("m2", [0]), ("wfm", [0])] (.num 10) })] })],
+    sequencing := [(1, ⟨0, 1, 0, 0, 0⟩)],
+    awgspecs := [("SR", .val (.num 10)), ("channel1_amplitude", .val .none)] }
+
+/-- MODEL GAP (error kind only): with a non-numeric amplitude AND a waveform shorter than 2400 points the
+    model's `outputForSEQXFile` raises TypeError (it converts the amplitudes first), whereas the code raises
+    ValueError "Waveform too short" (it divides `ampl / 2` only after the length check; checked against
+    broadbean with amplitude `None` and `"x"`).  Both raise; `seqx_value_error` assumes numeric
+    amplitudes (`hnum`) and is not affected. -/
+example : (match shortNoneSeq.outputForSEQXFile with | .error e => some e | .ok _ => none) = some Err.type := by
+  decide +kernel
+
 end BB.C15
